@@ -20,6 +20,22 @@ CHECKS = {
    technique="explicit-state exploration by re-execution + exhaustive poll family (kind x offset/timestamp x count) in every reached state, slice-of-list oracle",
    text="In every state reached by every send/flush/save/restart history up to the depth, the complete family of polls (offset 0..cur+2, first, last, next for four stored positions, every stored timestamp and its neighbours; counts 1,2,3,cur+2) is issued and compared field by field with the slice of the list model; vacuity counters show buffer-only, disk-only, disk+buffer, multi-segment and reloaded states were visited.",
    note=PLOG_NOTE),
+ "C05": dict(cat="model_checking", engine="E-seq/catalogue", design="§5 C05",
+   technique="explicit-state exploration by re-execution over real TCP handlers: all histories of administrative commands up to a depth in four layered alphabets, each followed by a restart; differential oracle (catalogue before shutdown = after replay)",
+   text="Streams, topics/partitions/messages, consumer groups and users/tokens are explored in four layered alphabets that mix server-assigned and client-chosen ids, addressing by number and by name, deletions and re-creations. Every history ends with a restart (restarts also occur inside histories); start-up must succeed and ids, names, settings, partition sets, message contents, stored offsets, groups, users, permissions and token names/expiry must be identical before and after.",
+   note="Trusted base: harness snapshot/diff code; single blocking-pool thread; in-process restart with the stream-id cursor reset; token expiry compared under a frozen clock. TCP transport only in this revision."),
+ "C06": dict(cat="model_checking", engine="E-seq/catalogue", design="§5 C06",
+   technique="explicit-state exploration by re-execution over real TCP handlers: all histories of valid and invalid administrative commands up to a depth; BTreeMap reference catalogue as oracle",
+   text="Every history of valid and invalid commands (duplicate names/ids, renames onto taken names, unknown targets, root deletion) in the four layers is executed; after every command the outcome class (acknowledged/refused) and the complete catalogue - including lookup by name vs by id, cascade on delete, sibling isolation, memberships of two extra clients - are compared with a sequential map model; a refused command must leave catalogue and directory tree unchanged; any panic in a server task is a violation.",
+   note="Trusted base: the reference model (boring BTreeMaps; commands whose outcome the property does not fix are accepted either way); panics are counted by a process-wide hook. TCP transport only in this revision."),
+ "C10": dict(cat="model_checking", engine="E-seq/catalogue", design="§5 C10",
+   technique="explicit-state exploration by re-execution over real TCP connections: all histories of user/password/status/token/clock/restart operations up to a depth; after every step every candidate credential is tried and every data file is byte-searched for secrets",
+   text="After every step of every history each username x password combination, every raw token ever issued and a forged token are tried on fresh connections and compared with a validity model (exists, active, current password / not deleted, owner active, not expired); a login-get_me-logout-get_me probe checks de-authentication; all files are searched for passwords and raw tokens in plain, hex and base64 form; restarts are part of the alphabet, so credentials must behave identically before and after.",
+   note="Trusted base: validity model; owned (frozen) clock, expiry crossed by an explicit 11 s jump; bcrypt/token randomness is recorded, never predicted. HTTP/JWT login not exercised."),
+ "C19": dict(cat="model_checking", engine="E-seq/partition-log", design="§5 C19",
+   technique="explicit-state exploration by re-execution: histories of batches covering a payload-shape alphabet, flushes, journalled commands and restarts into key 1 / key 2 / encryption off; lossless-read oracle + exhaustive byte search of all files for markers",
+   text="Starting with encryption on (and off as control, which also validates the scanner), every history up to the depth is executed; reads must return exactly the bytes sent (lengths around the AES block size, all-zero, all-0xFF, ASCII markers); no marker written under encryption may occur in any file; a restart with the same key must succeed and reproduce everything; a start under another key or without encryption must end in an error (never in a panic, never in delivered content).",
+   note="Trusted base: byte scanner (validated by the encryption-off control run); random nonces never compared. Message-level wrong-key reads are unreachable through restarts because the journal check refuses the start first; that guard is what is exercised."),
  "C14": dict(cat="model_checking", engine="E-seq/partition-log", design="§5 C14",
    technique="explicit-state exploration by re-execution with an owned clock: all histories of sends, segment fills, clock jumps, real maintenance passes, expiry updates (journalled over TCP) and restarts up to a depth; may-be-deleted set oracle",
    text="Every history up to the depth is executed with the clock owned by the harness; each maintenance pass is one call of the real MaintainMessagesExecutor. The oracle keeps the set of messages a pass was ever entitled to delete (closed segment, newest message older than the expiry at the time of the pass) and requires at every step that everything else is still served unchanged, that the current offset never moves back, that numbering continues (also across restarts) and that polls below the earliest retained offset start at it.",
@@ -75,6 +91,8 @@ def main():
         "engines": [
             {"name": "E-seq/partition-log", "path": "/verif/harness/src/pexp.rs", "serves_properties": [p for p in CHECKS if CHECKS[p]["engine"] == "E-seq/partition-log"],
              "kind_free_text": "explicit-state tree search over operation histories; state = history, rebuilt by re-executing the real server on a fresh copy of a journalled template directory; one child OS process per job"},
+            {"name": "E-seq/catalogue", "path": "/verif/harness/src/cexp.rs", "serves_properties": [p for p in CHECKS if CHECKS[p]["engine"] == "E-seq/catalogue"],
+             "kind_free_text": "explicit-state tree search over administrative command histories sent through the real TCP handlers of an in-process server; catalogue observed through the server's lookup functions"},
         ],
         "checks": checks,
         "not_applicable": na,
